@@ -42,10 +42,21 @@ def _canary(ctx, chk):
                "%d in-place operation(s) on an input alias flagged; the copy-protected twin must stay silent" % len(hits))
 
 
+def _value_only_use(n):
+    p = getattr(n, "parent", None)
+    if isinstance(p, (ast.BinOp, ast.Compare, ast.UnaryOp)):
+        return True
+    if isinstance(p, ast.Call) and n in p.args and call_name(p) in ("round", "abs", "float", "int", "bool", "str", "len", "max", "min", "math.floor", "math.log"):
+        return True
+    return False
+
+
 def dynamic_census(ctx, chk, rule):
     bad = 0
     for f in ctx.prog.all_funcs(shared.SOLVER_MODULES):
         for n in walk_no_nested_defs(f.node):
+            if isinstance(n, ast.Call) and call_name(n) == "getattr" and len(n.args) == 2 and _value_only_use(n):
+                continue      # a field read whose value only enters arithmetic / comparisons: no call target and no alias is hidden
             if isinstance(n, ast.Call) and call_name(n) in ("getattr", "setattr", "eval", "exec", "globals", "locals", "vars", "__import__", "delattr"):
                 bad += 1
                 chk.undecided(rule, f.where(n), "dynamic access `%s` defeats static resolution" % src(n))
